@@ -1,4 +1,5 @@
 """Facts and rules shared by the AArch64 clauses of C02 / C14."""
+import re
 from . import cfg, vbe, narrow
 from .regions import Regions
 
@@ -295,3 +296,101 @@ def rule_mem_index(chk, A):
                       "encoded as if the index were x1" % " ".join(emit.text(at).split())[:60], key="memindex|%d" % n)
     chk.floor(R + ":sites", n, 2)
     chk.floor(R + ":type-checkers", len(type_checkers), 1)
+
+
+# Arm ARM (DDI 0487) C4.1 "Data processing - register": op0:op1 bits 28..24 = 01011 with bit 21 = 0 is "Add/subtract (shifted register)", whose
+# shift field 23:22 = 11 is RESERVED; bits 28..24 = 01010 is "Logical (shifted register)", where 11 is ROR.
+def _shift_class(op):
+    top = (op >> 24) & 0x1F
+    if top == 0b01011 and not (op >> 21) & 1:
+        return "addsub-shifted", 2
+    if top == 0b01010:
+        return "logical-shifted", 3
+    return None, None
+
+
+def rule_shift_class(chk, A):
+    """a shift type taken from an operand is bounded by what the instruction class of every row of the case can encode"""
+    from . import subscript, exprfold
+    R = "R-SHIFT-TYPE-CLASS"
+    chk.rule(R, "a64 _emit: where a shift type taken from an immediate operand's predicate is packed into bits 23:22, its upper bound on every "
+                "path (dominating comparisons) does not exceed what the architectural class of *each* table row of that case allows - ASR (2) for "
+                "add/subtract (shifted register) opcodes, whose value 3 is reserved, ROR (3) for logical (shifted register) opcodes; the base opcode "
+                "of a row is folded from the case's opcode.reset() expression")
+    emit, regions, db = A["emit"], A["regions"], A["db"]
+    tables = db["tables"]
+    case_arrays = {}
+    for i, x in emit.ex.items():
+        if x["k"] == "subscript":
+            idx = emit.e(emit.strip(x["idx"]))
+            base = emit.e(emit.strip(x["base"]))
+            if idx and idx["k"] == "ref" and idx.get("name") == "encoding_index" and base and base["k"] == "ref" and base.get("dk") == "global":
+                for reg in regions.group_of_line(x["l"]):
+                    case_arrays.setdefault(reg, set()).add(base["qn"])
+    inits = {}
+    for i, x in emit.ex.items():
+        if x["k"] == "decl":
+            for v in x["vars"]:
+                if v.get("init"):
+                    inits[v["did"]] = v["init"]
+    pred_vars = set()
+    for did, e in inits.items():
+        src = emit.e(emit.strip(e))
+        if src is not None and src["k"] == "mcall" and src.get("cn") == "predicate":
+            pred_vars.add(did)
+    for i, x in emit.ex.items():
+        if x["k"] == "binop" and x["op"] == "=":
+            l, r = emit.e(emit.strip(x["lhs"])), emit.e(emit.strip(x["rhs"]))
+            if l is not None and l["k"] == "ref" and "did" in l and r is not None and r["k"] == "mcall" and r.get("cn") == "predicate":
+                pred_vars.add(l["did"])
+    resets = sorted((x["l"], i) for i, x in emit.calls(lambda x: x["k"] == "mcall" and x.get("cn") == "reset" and "Opcode" in (x.get("cls") or "") and x.get("args")))
+    U = subscript.UB(emit, {}, {}, {})
+    n = nrows = 0
+    for i, x in sorted(emit.calls(lambda x: x["k"] == "mcall" and x.get("cn") == "add_imm" and len(x.get("args", [])) == 2)):
+        sh = emit.e(emit.strip(x["args"][1]))
+        v = emit.e(emit.strip(x["args"][0]))
+        if sh is None or sh.get("cv") != 22 or v is None or v["k"] != "ref" or v.get("did") not in pred_vars:
+            continue
+        n += 1
+        regs = [r for r in regions.group_of_line(x["l"]) if r.startswith("case:")]
+        arrays = set()
+        for r in regs:
+            arrays |= case_arrays.get(r, set())
+        lo = min(regions.lines[regions.names.index(r)] for r in regs) if regs else 0
+        prev = [ri for (l, ri) in resets if lo <= l <= x["l"]]
+        inst = "%s|%s@%d" % ("+".join(r[5:] for r in regs), v["name"], n)
+        if len(arrays) != 1 or not prev:
+            chk.ob(R, inst, False, loc=emit.loc(i), detail="cannot relate the shift-type pack to one EncodingData table and an opcode.reset() of its case", key="shiftclass|" + inst)
+            continue
+        rows = tables[next(iter(arrays))]["value"]
+        reset = prev[-1]
+        bound = U.ub(x["args"][0], i)
+        worst = None
+        for ri, row in enumerate(rows):
+            def leaf(txt, node, row=row):
+                m = re.match(r"op_data\.([a-z_0-9]+)(\(\))?$", txt)
+                if m and m.group(1) in row:
+                    return row[m.group(1)]
+                raise exprfold.Unknown()
+            try:
+                op = exprfold.Folder({}, leaf, 32).fold(emit, emit.e(reset)["args"][0])
+            except exprfold.Unknown:
+                worst = (ri, None, "base opcode not foldable")
+                break
+            cls, lim = _shift_class(op)
+            nrows += 1
+            if cls is not None and bound > lim:
+                # the guard may depend on the row (`op_data.opcode & B(24) ? kASR : kROR`): bound it again for this row alone
+                bound_r = subscript.UB(emit, {}, {}, {}, row_leaf=leaf).ub(x["args"][0], i)
+                if bound_r <= lim:
+                    continue
+            if cls is None:
+                worst = (ri, op, "opcode %08x of row %d belongs to no shifted-register class" % (op, ri))
+                break
+            if bound > lim:
+                worst = (ri, op, "row %d (opcode %08x) is %s: shift types above %d are reserved, but %s can be as large as %s here" %
+                         (ri, op, cls, lim, v["name"], bound if bound < (1 << 40) else "(unbounded)"))
+                break
+        chk.ob(R, inst, worst is None, loc=emit.loc(i), detail=worst[2] if worst else "", key="shiftclass|" + "+".join(r[5:] for r in regs))
+    chk.floor(R + ":sites", n, 4)
+    chk.floor(R + ":rows", nrows, 10)
